@@ -210,7 +210,7 @@ pub fn probe(v: &Value) {
 
 /// Listed known findings of one property (input entries carry their operands).
 pub fn known_inputs(prop: &str) -> Vec<Value> {
-    let text = std::fs::read_to_string("/verif/known_findings.json").unwrap_or_default();
+    let text = std::fs::read_to_string(crate::util::known_findings_path()).unwrap_or_default();
     let v: Value = serde_json::from_str(&text).unwrap_or(Value::Null);
     v["findings"].as_array().map(|a| a.iter().filter(|f| f["property"] == prop && f["match"] == "input").cloned().collect()).unwrap_or_default()
 }
@@ -269,7 +269,7 @@ pub fn run_known(ctx: &mut Ctx, check: &mut dyn FnMut(&crate::gen::Case, Op, boo
 /// Operand pairs of all recorded input findings (deduplicated), each with the (operation, is_f32) combinations that are
 /// listed for `prop` in build variant `variant` (None = every operation).
 pub fn sentinel_inputs(prop: &str, variant: &str) -> Vec<(crate::gen::Case, Vec<(Option<Op>, Option<bool>)>)> {
-    let text = std::fs::read_to_string("/verif/known_findings.json").unwrap_or_default();
+    let text = std::fs::read_to_string(crate::util::known_findings_path()).unwrap_or_default();
     let v: Value = serde_json::from_str(&text).unwrap_or(Value::Null);
     let mut out: Vec<(String, crate::gen::Case, Vec<(Option<Op>, Option<bool>)>)> = Vec::new();
     for f in v["findings"].as_array().cloned().unwrap_or_default() {
